@@ -39,6 +39,8 @@ def check(ctx):
     from ..sigrules import signatures as _signatures
 
     _signatures(ctx, "R-SIG", classes=('skmatter.preprocessing.StandardFlexibleScaler',))
+    # readers (transform / predict / score ...) leave the fitted state untouched and keep no result buffer on the estimator
+    protocols.reader_state_obligations(ctx, "R-STATE", "StandardFlexibleScaler", ctx.P.cls("skmatter.preprocessing.StandardFlexibleScaler"))
     P = ctx.P
     N = ctx.normalizer()
     cls = P.cls(CLS)
